@@ -45,25 +45,30 @@ func runHistory(prop string, seed int64, prm [4]uint64, float int64, n int, g *G
 		} else {
 			op = g.next(prev, n-i)
 		}
-		if w.stuck && (op.Kind == "Observe" || op.Kind == "BatchExecuted" || op.Kind == "ObserveResult") {
+		if w.stuck && (op.Kind == "Observe" || op.Kind == "BatchExecuted" || op.Kind == "ObserveResult" || op.Kind == "Race") {
 			break
 		}
-		ok, cur := w.step(op)
-		if g != nil {
-			g.note(op, ok, cur)
+		for _, st := range w.steps(op) {
+			ok, cur := st.Ok, st.Snap
+			if g != nil {
+				g.note(st.Op, ok, cur)
+			}
+			mon.Check(prop, st.Op, ok, prev, cur)
+			res.steps = append(res.steps, "("+coqOp(st.Op)+", "+coqObs(ok, cur)+")")
+			rep.Count("op=" + st.Op.Kind)
+			if ok {
+				rep.Count("accepted")
+				changed++
+			} else {
+				rep.Count("refused")
+			}
+			rep.Case(fmt.Sprintf("%s/%d/%s/%v", hid, i, coqOp(st.Op), ok), ok && st.Op.Kind != "NextBlock")
+			prev = cur
 		}
-		mon.Check(prop, op, ok, prev, cur)
 		res.ops = append(res.ops, op)
-		res.steps = append(res.steps, "("+coqOp(op)+", "+coqObs(ok, cur)+")")
-		rep.Count("op=" + op.Kind)
-		if ok {
-			rep.Count("accepted")
-			changed++
-		} else {
-			rep.Count("refused")
+		if op.Kind == "Race" {
+			rep.Count("race")
 		}
-		rep.Case(fmt.Sprintf("%s/%d/%s/%v", hid, i, coqOp(op), ok), ok && op.Kind != "NextBlock")
-		prev = cur
 	}
 	for _, e := range prev.Events {
 		_ = e
@@ -292,6 +297,34 @@ func scripted(prop string) []script {
 		bulk = append(bulk, Op{Kind: "Observe", H: 1003}, Op{Kind: "Observe", H: 1004}, Op{Kind: "Observe", H: 1005})
 		out = append(out, script{paramSets[2], 100000, bulk})
 	}
+	// (12) uneven vote schedule: batch 1 (time-out 1600) is executed externally at 1599, the next external event is at 1601;
+	// oracle 1 mis-reports the height of the execution, oracle 2 is slow: oracles 0 and 1 have already reported the second
+	// event when oracle 2 completes the quorum of the first. The execution must be applied first (batch settled, transfer
+	// not back in the pool, creator cannot cancel), then the later event. Same for a bridge-call result at T-1.
+	out = append(out, script{paramSets[1], 100000, []Op{
+		{Kind: "Observe", H: 1000},
+		{Kind: "Send", Sender: 0, Dest: 1, Amount: 10, Fee: 5, Token: 0},
+		{Kind: "RequestBatch", Token: 0, Which: 1, FeeRcv: 0, MinFee: 1, Auth: true},
+		{Kind: "Race", Sub: []Op{{Kind: "BatchExecuted", Token: 0, Nonce: 1, H: 1599, Dissent: 1602, DissentBy: 1}, {Kind: "Observe", H: 1601}}},
+		{Kind: "Cancel", ID: 1, Who: 0},
+		{Kind: "BridgeCall", Sender: 0, Refund: 1, Coins: [][2]int64{{0, 50}}, To: 2, Data: []byte{1}},
+		{Kind: "Observe", H: 1700},
+	}})
+	// (13) the result of a bridge call arrives with an event nonce different from the call nonce, is executed, and a later
+	// event reaches the call's time-out: nothing may be refunded (call 1 settled by its result); an unrelated pending call
+	// whose nonce equals that event nonce (call 3, event 3) must keep its record
+	out = append(out, script{paramSets[2], 100000, []Op{
+		{Kind: "Observe", H: 1000},
+		{Kind: "BridgeCall", Sender: 0, Refund: 1, Coins: [][2]int64{{0, 50}}, To: 2, Data: []byte{1}},
+		{Kind: "Observe", H: 1000},
+		{Kind: "NextBlock"},
+		{Kind: "BridgeCall", Sender: 1, Refund: 2, Coins: [][2]int64{{0, 20}}, To: 2, Data: []byte{2}},
+		{Kind: "BridgeCall", Sender: 2, Refund: 0, Coins: [][2]int64{{0, 30}}, To: 2, Data: []byte{3}},
+		{Kind: "ObserveResult", Nonce: 1, Success: true, H: 1001},
+		{Kind: "ExecResult", E: 3},
+		{Kind: "Observe", H: 1003},
+		{Kind: "Observe", H: 1004},
+	}})
 	// (4) more than 100 entries of one token: the batch takes the 100 best, ties by descending id
 	var big []Op
 	big = append(big, Op{Kind: "Observe", H: 77})
@@ -339,14 +372,16 @@ func replay(defaultProp string) {
 	mon := NewMonitor(w)
 	prev := w.snapshot()
 	for i, op := range r.Ops {
-		ok, cur := w.step(op)
-		n := len(mon.fails)
-		mon.Check(prop, op, ok, prev, cur)
-		fmt.Printf("%3d %-60s accepted=%v pool=%d batches=%d calls=%d ext=%d\n", i, coqOp(op), ok, len(cur.Pool), len(cur.Batches), len(cur.Calls), cur.Ext)
-		for _, f := range mon.fails[n:] {
-			fmt.Printf("    MONITOR %s: %s\n", f.sig, f.what)
+		for _, st := range w.steps(op) {
+			ok, cur := st.Ok, st.Snap
+			n := len(mon.fails)
+			mon.Check(prop, st.Op, ok, prev, cur)
+			fmt.Printf("%3d %-60s accepted=%v pool=%d batches=%d calls=%d ext=%d\n", i, coqOp(st.Op), ok, len(cur.Pool), len(cur.Batches), len(cur.Calls), cur.Ext)
+			for _, f := range mon.fails[n:] {
+				fmt.Printf("    MONITOR %s: %s\n", f.sig, f.what)
+			}
+			prev = cur
 		}
-		prev = cur
 	}
 	if len(mon.fails) > 0 {
 		os.Exit(1)
